@@ -224,3 +224,64 @@ class AccLen(Contract):
 
     def post(self, c, a, result):
         c.ensure(eq(result, a['self'].axis[2]), 'len_is_axis_length')
+
+
+# ---------------------------------------------------------------------------------------------
+# accessor construction: which axis, which length, which read method (ties the abstract values_function to the read contracts)
+
+class ReaderInitView(Contract):
+    """call-site view of SgzReader.__init__ (ReaderInit contract): the object holds the file's axes and counts"""
+    modular_use = True
+    exact_result = True
+    variant = 'call-site view'
+    only_in = ('Accessor.__init__',)
+
+    def verify(self, interp, prog, timeout_ms=None):
+        from pyvc.smt import Explorer
+        ex = Explorer(self.fuc_name()); ex.contract = self; ex.prog = prog
+        ex.note_outcome('call-site view (the function has its own contract)')
+        return ex, prog.function(self.key)
+
+    def fresh_result(self, c, a):
+        from . import objects as O
+        me = a['self']
+        nI = c.sym_int('nI', lo=2, name='n_ilines'); nX = c.sym_int('nX', lo=2, name='n_xlines'); nZ = c.sym_int('nZ', lo=2, name='n_samples')
+        me.fields.update(n_ilines=nI, n_xlines=nX, n_samples=nZ, tracecount=mul(nI, nX), ilines=O.axis_array(c, 'ilines', nI), xlines=O.axis_array(c, 'xlines', nX),
+                         zslices=O.axis_float(c, 'zslices', nZ))
+        c.ghost['reader_init_file'] = a.get('file')
+        return None
+
+
+class AccessorInit(Contract):
+    """<X>Accessor(file): a reader on that file whose len / keys / values_function are the count, axis and read method of its kind"""
+    cls = 'InlineAccessor'
+    spec = ('n_ilines', 'ilines', 'read_inline_number')
+    may_raise = ()
+
+    def inputs(self, c):
+        me = SObj(c.ex.prog.klass(self.cls), {})
+        return dict(self=me, file='<sgz>')
+
+    def post(self, c, a, result):
+        from pyvc.symex import BoundMethod
+        me = a['self']
+        n_field, keys_field, method = self.spec
+        c.ensure(mk_bool(c.ghost.get('reader_init_file') == '<sgz>'), 'reader_constructed_on_the_given_file')
+        c.ensure(eq(me.fields.get('len_object'), me.fields[n_field]), f'len_is_{n_field}')
+        ko = me.fields.get('keys_object')
+        if keys_field is None:
+            from pyvc.values import SRange
+            c.ensure(mk_bool(isinstance(ko, SRange)) and And(eq(ko.start, 0), eq(ko.stop, me.fields['tracecount']), eq(ko.step, 1)), 'keys_are_the_trace_ordinals')
+        else:
+            c.ensure(mk_bool(ko is me.fields[keys_field]), f'keys_are_{keys_field}')
+        vf = me.fields.get('values_function')
+        c.ensure(mk_bool(isinstance(vf, BoundMethod) and vf.obj is me and vf.finfo.qualname.endswith('.' + method)), f'values_come_from_{method}')
+
+
+_ACC = {'InlineAccessor': ('n_ilines', 'ilines', 'read_inline_number'), 'CrosslineAccessor': ('n_xlines', 'xlines', 'read_crossline_number'),
+        'ZsliceAccessor': ('n_samples', 'zslices', 'read_zslice'), 'HeaderAccessor': ('tracecount', None, 'gen_trace_header'),
+        'TraceAccessor': ('tracecount', None, 'get_trace')}
+ReaderInitView.only_in = tuple(f'{k}.__init__' for k in _ACC)
+fuc('read.py::SgzReader.__init__', props=[], modular=True)(ReaderInitView)
+for _k, _v in _ACC.items():
+    fuc(f'accessors.py::{_k}.__init__', props=['C13', 'C02'])(type('AccessorInit_' + _k, (AccessorInit,), dict(cls=_k, spec=_v, variant=_k)))
